@@ -566,4 +566,102 @@ theorem fuzzy_complete_capped {β : Type} (m : Arith) (bound cap : Nat) (q ql : 
 example : fuzzyMatch .checked 1 1 ['a', 'b'] ['a', 'b'] [(0, ['b']), (1, ['a', 'b'])]
     = .ok [(1, 0)] := by decide
 
+/-! ### w26 — completeness of the MERGED fuzzy search (audit w22 §4 C15 (b): "not stated")
+
+The audit expected it to be false "in general: children's own caps". It is false only in the sense in which
+`fuzzy_complete` is: the cap must cover the candidates. With the cap at least the number of words within the bound
+over ALL children, no child's cap and not the final `take` cut anything. -/
+
+/-- the candidates of a merged dictionary within the bound, children concatenated -/
+def mergedNear (bound : Nat) (q ql : List Char) (ds : Merged) : List (List Char × List Char) :=
+  ds.flatMap fun d => d.tagged.filter (fun xw => decide (min (lev q xw.2) (lev ql xw.2) ≤ bound))
+
+/-- Completeness of `MergedDictionary::fuzzy_match`: when the cap is not smaller than the number of words within the
+bound in all children together, every non-empty word of every child within the bound of the query (or of the
+lower-cased query, if lower-casing kept its length) is returned with its true (smaller) distance. -/
+theorem merged_fuzzy_complete (m : Arith) (bound cap : Nat) (q ql : List Char) (ds : Merged)
+    (hq : m = .nat ∨ (q.length + bound ≤ 254 ∧ ql.length ≤ 254))
+    (hcap : (mergedNear bound q ql ds).length ≤ cap) :
+    ∃ res, Merged.fuzzyMatch m bound cap q ql ds = .ok res ∧
+      ∀ d ∈ ds, ∀ e ∈ d, e.word ≠ [] →
+        (lev q e.word ≤ bound ∨ (ql.length = q.length ∧ lev ql e.word ≤ bound)) →
+        (e.word, min (lev q e.word) (lev ql e.word)) ∈ res := by
+  have hflat : ∀ ds : List Dict, (mergedNear bound q ql ds).length ≤ cap →
+      ∃ l, Merged.fuzzyFlat m bound cap q ql ds = .ok l ∧ l.length ≤ (mergedNear bound q ql ds).length ∧
+        ∀ d ∈ ds, ∀ e ∈ d, e.word ≠ [] →
+          (lev q e.word ≤ bound ∨ (ql.length = q.length ∧ lev ql e.word ≤ bound)) →
+          (e.word, min (lev q e.word) (lev ql e.word)) ∈ l := by
+    intro ds
+    induction ds with
+    | nil => intro _; exact ⟨[], rfl, by simp [mergedNear], by simp⟩
+    | cons d ds ih =>
+      intro hc
+      have hsplit : (mergedNear bound q ql (d :: ds)).length =
+          (d.tagged.filter (fun xw => decide (min (lev q xw.2) (lev ql xw.2) ≤ bound))).length +
+            (mergedNear bound q ql ds).length := by
+        simp [mergedNear]
+      obtain ⟨l, hl, hlen, hl'⟩ := ih (by omega)
+      obtain ⟨r1, hr1, hc1⟩ := fuzzy_complete m bound cap q ql d.tagged hq (by omega)
+      obtain ⟨r1', hr1', _, _, _, hsub⟩ := fuzzy_sound m bound cap q ql d.tagged hq
+      rw [hr1] at hr1'; cases hr1'
+      have hr1len : r1.length ≤
+          (d.tagged.filter (fun xw => decide (min (lev q xw.2) (lev ql xw.2) ≤ bound))).length := by
+        have hrun : fuzzyMatch m bound cap q ql d.tagged
+            = .ok ((sortByDist (d.tagged.filterMap (fuzzyPick bound q ql))).take cap) := by
+          simp only [fuzzyMatch, fuzzyAll, fuzzyScan_eq m bound q ql d.tagged hq]
+        rw [hrun] at hr1; cases hr1
+        have h1 := length_filterMap_fuzzyPick_le bound q ql d.tagged
+        have h2 := (sortByDist_perm (d.tagged.filterMap (fuzzyPick bound q ql))).length_eq
+        simp only [List.length_take]
+        omega
+      refine ⟨r1 ++ l, by simp [Merged.fuzzyFlat, hr1, hl], by simp only [List.length_append]; omega, ?_⟩
+      intro d' hd' e he hne hnear
+      rcases List.mem_cons.mp hd' with rfl | hd'
+      · exact List.mem_append_left _ (hc1 e.word e.word (by
+          simp only [Dict.tagged, List.mem_map]; exact ⟨e, he, rfl⟩) hne hnear)
+      · exact List.mem_append_right _ (hl' d' hd' e he hne hnear)
+  obtain ⟨l, hl, hlen, hmem⟩ := hflat ds hcap
+  refine ⟨(sortByDist l).take cap, by simp [Merged.fuzzyMatch, hl], ?_⟩
+  intro d hd e he hne hnear
+  rw [List.take_of_length_le (by rw [(sortByDist_perm l).length_eq]; omega)]
+  exact (sortByDist_perm l).mem_iff.mpr (hmem d hd e he hne hnear)
+
+/-- a cap of at least the total number of entries always satisfies `hcap` -/
+theorem mergedNear_length_le (bound : Nat) (q ql : List Char) (ds : Merged) :
+    (mergedNear bound q ql ds).length ≤ (ds.map List.length).sum := by
+  induction ds with
+  | nil => simp [mergedNear]
+  | cons d ds ih =>
+    have h1 := List.length_filter_le (fun xw : List Char × List Char =>
+      decide (min (lev q xw.2) (lev ql xw.2) ≤ bound)) d.tagged
+    have h2 : d.tagged.length = d.length := by simp [Dict.tagged]
+    have hsplit : (mergedNear bound q ql (d :: ds)).length =
+        (d.tagged.filter (fun xw => decide (min (lev q xw.2) (lev ql xw.2) ≤ bound))).length +
+          (mergedNear bound q ql ds).length := by
+      simp [mergedNear]
+    simp only [List.map_cons, List.sum_cons]
+    omega
+
+/-- non-vacuity: two children with four entries, three of them within distance 1 of `cat` (`cat` is listed by both);
+the theorem applied with cap 4, and the result computed -/
+def twoDicts : Merged :=
+  [[⟨['c','a','t'], ['c','a','t'], 0⟩, ⟨['d','o','g'], ['d','o','g'], 0⟩],
+   [⟨['c','a','r'], ['c','a','r'], 0⟩, ⟨['c','a','t'], ['c','a','t'], 0⟩]]
+
+example : ∃ res, Merged.fuzzyMatch .checked 1 4 ['c','a','t'] ['c','a','t'] twoDicts = .ok res ∧
+    ∀ d ∈ twoDicts, ∀ e ∈ d, e.word ≠ [] →
+      (lev ['c','a','t'] e.word ≤ 1 ∨ ((['c','a','t'] : List Char).length = (['c','a','t'] : List Char).length ∧
+        lev ['c','a','t'] e.word ≤ 1)) →
+      (e.word, min (lev ['c','a','t'] e.word) (lev ['c','a','t'] e.word)) ∈ res :=
+  merged_fuzzy_complete .checked 1 4 _ _ twoDicts (Or.inr (by decide))
+    (Nat.le_trans (mergedNear_length_le _ _ _ _) (by decide))
+
+example : Merged.fuzzyMatch .checked 1 4 ['c','a','t'] ['c','a','t'] twoDicts
+    = .ok [(['c','a','t'], 0), (['c','a','t'], 0), (['c','a','r'], 1)] := by decide
+
+/-- the cap hypothesis counts a word once PER CHILD listing it: with cap 2 (the number of DIFFERENT words within the
+bound) the duplicate `cat` of the second child pushes `car` out — `MergedDictionary::fuzzy_match` does not deduplicate -/
+example : Merged.fuzzyMatch .checked 1 2 ['c','a','t'] ['c','a','t'] twoDicts
+    = .ok [(['c','a','t'], 0), (['c','a','t'], 0)] := by decide
+
 end Harper.C15
